@@ -4,6 +4,13 @@
 //
 // input  : <ident> <param|-> <argc> <value>...      (ident as emitted by translate/cxx_mini.py)
 // output : <value>  [fetched i j ...]   |  EXC <what>  |  UNKNOWN
+//
+// input  : TREE <nvars> <value>... <node>...       (C13: a whole program, nodes in prefix order)
+//            node = P:<ident>:<c0[,c1]>:<cat>:<argcats|->:<param|->    shipped primitive built with cvect {c0[,c1]}
+//                 | V:<var index>:<cat>                                input variable
+//          the program is built as an i_mep (one gene per row, root at row 0) and run by vita::run, i.e. by
+//          the real src_interpreter; the categories announced in the node are checked against the symbol's
+// output : <value>  |  THROW  |  EXC <what>  |  MISMATCH <what>
 #include <map>
 #include <memory>
 
@@ -12,6 +19,7 @@
 #include "kernel/gp/src/primitive/real.h"
 #include "kernel/gp/src/primitive/bool.h"
 #include "kernel/gp/src/primitive/string.h"
+#include "kernel/gp/src/variable.h"
 
 using namespace vita;
 
@@ -36,8 +44,128 @@ struct stub : symbol_params
   }
 };
 
+// ---------------------------------------------------------------- TREE
+static symbol *make_prim(const std::string &ident, const cvect &c)
+{
+#define Q(id, ...) if (ident == #id) return new __VA_ARGS__
+  Q(real_real, real::real(c));
+  Q(real_integer, real::integer(c));
+  Q(real_abs, real::abs(c));
+  Q(real_add, real::add(c));
+  Q(real_aq, real::aq(c));
+  Q(real_cos, real::cos(c));
+  Q(real_div, real::div(c));
+  Q(real_gt, real::gt(c));
+  Q(real_idiv, real::idiv(c));
+  Q(real_ifb, real::ifb(c));
+  Q(real_ife, real::ife(c));
+  Q(real_ifl, real::ifl(c));
+  Q(real_ifz, real::ifz(c));
+  Q(real_length, real::length(c));
+  Q(real_ln, real::ln(c));
+  Q(real_lt, real::lt(c));
+  Q(real_max, real::max(c));
+  Q(real_mod, real::mod(c));
+  Q(real_mul, real::mul(c));
+  Q(real_sin, real::sin(c));
+  Q(real_sqrt, real::sqrt(c));
+  Q(real_sub, real::sub(c));
+  Q(real_sigmoid, real::sigmoid(c));
+  Q(string_ife, str::ife(c));
+#undef Q
+  return nullptr;
+}
+
+static std::vector<std::string> split_on(const std::string &s, char sep)
+{
+  std::vector<std::string> out(1);
+  for (char ch : s)
+    if (ch == sep) out.emplace_back(); else out.back() += ch;
+  return out;
+}
+
+struct tree_ctx
+{
+  const std::vector<std::string> &w;
+  std::size_t pos;
+  std::vector<gene> genes;
+  std::map<std::string, std::unique_ptr<symbol>> &cache;
+  std::string problem;
+
+  // parses the node at w[pos], appends its gene; returns its row
+  std::size_t node()
+  {
+    const std::size_t row(genes.size());
+    genes.emplace_back();
+    if (pos >= w.size()) { problem = "truncated"; return row; }
+    const std::string tok(w[pos++]);
+    const auto f(split_on(tok, ':'));
+    if (f[0] == "V" && f.size() == 3)
+    {
+      auto &sp(cache[tok]);
+      if (!sp)
+        sp.reset(new variable("X" + f[1], std::stoul(f[1]), static_cast<category_t>(std::stoul(f[2]))));
+      genes[row] = gene(*terminal::cast(sp.get()));
+      return row;
+    }
+    if (f[0] != "P" || f.size() != 6) { problem = "bad node " + tok; return row; }
+    const std::string key(f[1] + ":" + f[2]);
+    auto &sp(cache[key]);
+    if (!sp)
+    {
+      cvect c;
+      for (const auto &x : split_on(f[2], ',')) c.push_back(static_cast<category_t>(std::stoul(x)));
+      sp.reset(make_prim(f[1], c));
+    }
+    symbol *sy(sp.get());
+    if (!sy) { problem = "unknown primitive " + f[1]; return row; }
+    if (sy->category() != std::stoul(f[3])) problem = "category of " + tok;
+    std::vector<category_t> ac;
+    if (f[4] != "-")
+      for (const auto &x : split_on(f[4], ',')) ac.push_back(static_cast<category_t>(std::stoul(x)));
+    if (ac.size() != sy->arity()) { problem = "arity of " + tok; return row; }
+    std::vector<index_t> args;
+    for (std::size_t i(0); i < ac.size(); ++i)
+    {
+      if (function::cast(sy)->arg_category(i) != ac[i]) problem = "argument category of " + tok;
+      args.push_back(static_cast<index_t>(node()));
+    }
+    gene g(std::pair<symbol *, std::vector<index_t>>{sy, args});
+    if (f[5] != "-") g.par = vv::double_of(std::stoull(f[5], nullptr, 16));
+    genes[row] = g;
+    return row;
+  }
+};
+
+static void run_tree_line(const std::vector<std::string> &w,
+                          std::map<std::string, std::unique_ptr<symbol>> &cache)
+{
+  const std::size_t nv(std::stoul(w[1]));
+  std::vector<value_t> example;
+  for (std::size_t i(0); i < nv; ++i) example.push_back(vv::parse_value(w[2 + i]));
+  tree_ctx ctx{w, 2 + nv, {}, cache, ""};
+  ctx.node();
+  if (ctx.problem.empty() && ctx.pos != w.size()) ctx.problem = "trailing tokens";
+  if (!ctx.problem.empty()) { std::cout << "MISMATCH " << ctx.problem << '\n'; return; }
+  try
+  {
+    const i_mep prg(ctx.genes);
+    const value_t r(run(prg, example));
+    std::cout << vv::show(r) << '\n';
+  }
+  catch (const std::bad_variant_access &)
+  {
+    std::cout << "THROW\n";
+  }
+  catch (const std::exception &e)
+  {
+    std::cout << "EXC " << e.what() << '\n';
+  }
+}
+
 int main()
 {
+  std::map<std::string, std::unique_ptr<symbol>> tree_syms;
   std::map<std::string, std::unique_ptr<symbol>> prims;
 #define P(ident, ...) prims[#ident] = std::unique_ptr<symbol>(new __VA_ARGS__)
   P(int_number, integer::number({0}));
@@ -86,6 +214,7 @@ int main()
   {
     const auto w(vv::split(line));
     if (w.size() < 3) { std::cout << "BADLINE\n"; continue; }
+    if (w[0] == "TREE") { run_tree_line(w, tree_syms); continue; }
     const auto it(prims.find(w[0]));
     if (it == prims.end()) { std::cout << "UNKNOWN\n"; continue; }
     stub s;
